@@ -806,7 +806,7 @@ func Scenarios() []drv.Scenario {
 		// then two deviations of the restricted class
 		mk(cfg{name: "safe-default-3", nBatch: 3, window: "workload"}, d1r, nil),
 		mk(cfg{name: "safe-aggressive-merge-3", conf: aggressive, nBatch: 3, window: "workload"}, nil, d1r),
-		mk(cfg{name: "unsafe-2-persister-workers-3", conf: unsafe2, unsafe: true, nBatch: 3, window: "workload"}, d1r, nil),
+		mk(cfg{name: "unsafe-2-persister-workers-3", conf: unsafe2, unsafe: true, nBatch: 3, window: "workload"}, nil, d1r),
 		{Name: "unsafe-inmemory-merge-window", Body: bodyWindow(cfg{name: "unsafe-inmemory-merge-window", conf: unsafe2, unsafe: true, wl: windowWorkload}), After: after, Quick: d1r, Thorough: d2r, Class: "unsafe"},
 		{Name: "unsafe-flush-group-emptied-during-inmemory-merge", Doc: "four unsafe batches pile up behind the parked persister (two flush groups for two workers); a low-priority delete-only batch obsoletes every document of the first group inside the merge window; crash images at every effect boundary", Body: bodyWindow(cfg{name: "unsafe-flush-group-emptied-during-inmemory-merge", conf: unsafe2, unsafe: true, wl: groupWorkload}), After: after, Quick: d1r, Thorough: d2r, Class: "unsafe"},
 		{Name: "safe-two-writers", Doc: "safe mode, two concurrent writers: three batches of the first, one delete-only batch of a low-priority second writer landing anywhere; crash images at every effect boundary; an acknowledged batch of either writer must be in the recovered state, each batch all-or-nothing", Body: bodyTwoWriters(cfg{name: "safe-two-writers", wl: twoWorkload, second: twoSecond}), After: after, Quick: []drv.Phase{{Bound: 1, Filter: "restricted+"}}, Thorough: d2r, Class: "safe"},
